@@ -15,8 +15,8 @@ for n, ib, tier in [(1, 0, "quick"), (2, 0, "quick"), (3, 0, "quick"), (4, 0, "t
                 desc="eol::convert_to_git == git crlf_to_git: unchanged / converted bytes / safecrlf refusal",
                 inputs="all contents of %d bytes; %s; index blob: %s; safecrlf off/warn/true" % (n, CFG, ("all blobs of %d bytes" % ib) if ib else "absent"),
                 bound="unwind %d" % (n + 3 if not ib else 6)))
-for n, tier in [(1, "quick"), (2, "quick"), (3, "quick"), (4, "thorough")]:
-    hs.append(H(P + "c43_to_worktree_%d" % n, tier=tier, timeout=1200, mem=12, covers=2, thorough_timeout=3000,
+for n, tier in [(1, "quick"), (2, "quick"), (3, "thorough")]:
+    hs.append(H(P + "c43_to_worktree_%d" % n, tier=tier, timeout=1200 if n < 3 else 3000, mem=12 if n < 3 else 28, covers=2, thorough_timeout=3000,
                 desc="eol::convert_to_worktree == git crlf_to_worktree: unchanged / converted bytes", inputs="all contents of %d bytes; %s" % (n, CFG), bound="unwind %d" % (n + 3)))
 
 SPEC = {
